@@ -9,7 +9,7 @@ from dataclasses import dataclass, field
 from . import core
 from .mirfront import MirFn, Stmt
 
-TRANSPARENT_CALLS = {"from", "into", "try_into", "unwrap", "unsigned_abs", "clone", "as_str", "deref", "to_owned",
+TRANSPARENT_CALLS = {"from", "into", "try_into", "unwrap", "clone", "as_str", "deref", "to_owned",
                      "floor", "trunc"}
 CMP = {"Lt": ast.Lt, "Le": ast.LtE, "Gt": ast.Gt, "Ge": ast.GtE, "Eq": ast.Eq, "Ne": ast.NotEq}
 ARITH = {"Add": ast.Add, "Sub": ast.Sub, "Mul": ast.Mult, "Div": ast.FloorDiv, "Rem": ast.Mod,
